@@ -13,7 +13,7 @@ import C18_gen
 PROPS = ['Props/Properties_C18.v']
 EXTRACT = '''From Coq Require Import Extraction ExtrOcamlBasic.
 Require Import C18_Model C18_Spec.
-Extraction "c18.ml" wstep st0 isUpToDate abs gstep g_copy gvalid legal copy_ok.
+Extraction "c18.ml" wstep st0 isUpToDate abs gstep g_copy gvalid legal copy_ok wf_check dyn_check.
 '''
 ADV = lambda sl, ss, a, b: ''.join('On %d ADVS %d %d\nOn %d ADVY %d\n' % (sl, ss, g, sl, g) for g in range(a, b + 1))
 # witness sequences (one State slot 0, one subsystem unless said otherwise); the last dump decides
@@ -119,6 +119,29 @@ def search(ctx, exe, drv, cf, n):
     ctx.extra['search'] = {'sequences': n, 'spec_predicate_evaluations': nev, 'failures': 0 if found is None else 1}
     if found:
         sid, d, x, y = found
+        # delete-one-operation shrinking while the implementation still departs from the specification on a legal prefix
+        def departs(seq):
+            r1, a1 = run_impl(exe, seq); r2, b1 = run_model(drv, cf, seq, spec=True)
+            ra = reduce_dump(a1); rb = []; cut = None
+            for l in b1.split('\n'):
+                if l.startswith('L '):
+                    if l == 'L 0' and cut is None: cut = len(rb)
+                    continue
+                if l != '': rb.append(l)
+            if cut is not None:
+                k = cut
+                while k > 0 and not rb[k - 1].startswith('T '): k -= 1
+                rb = rb[:max(k - 1, 0)]; ra = ra[:len(rb)]
+            else:
+                pass
+            return r1 != 0 or ra != rb
+        lines = S[sid].strip().split('\n'); head, ops = lines[0], lines[1:-1]
+        i = 0
+        while i < len(ops) and len(ops) > 1:
+            c = ops[:i] + ops[i + 1:]
+            if departs('\n'.join([head] + c + ['END']) + '\n'): ops = c
+            else: i += 1
+        S[sid] = '\n'.join([head] + ops + ['END']) + '\n'
         ctx.report('impl:spec-mismatch', 'implementation trace departs from the specification on a legal prefix: impl "%s" spec "%s"' % (x, y),
                    {'failing_input': S[sid], 'first_difference': {'line': d, 'implementation': x, 'specification': y},
                     'replay_cmd': 'bin/check C18 --replay <this file>'})
@@ -164,7 +187,7 @@ def run(ctx):
         t, g = C18_gen.gen_seq(ctx.rng, 's%d' % i); seqs.append(t)
         for f in g.feat: feats[f] = feats.get(f, 0) + 1
         nsubh[g.nsub] = nsubh.get(g.nsub, 0) + 1
-    dis = None; nops = 0; nthrow = 0; nontriv = set(); opsh = {}
+    dis = None; nops = 0; nthrow = 0; nontriv = set(); opsh = {}; inv = {'states': 0, 'wf_fail': 0, 'dyn_fail': 0, 'first': ''}
     CH = 5000
     for c0 in range(0, len(seqs), CH):
         txt = ''.join(seqs[c0:c0 + CH])
@@ -180,6 +203,12 @@ def run(ctx):
             break
         for sid, blk in blocks(a).items():
             if 'ok=1' in blk and 'ok=0' in blk and 'vv=2' in blk: nontriv.add(hashlib.sha1(blk.encode()).hexdigest())
+        # invariants of the refinement proof (wf_check / dyn_check of C18_Spec.v) on every state the model reaches
+        rc3, iv, _e3 = sh([drv, str(cf[0]), str(cf[1]), "inv"], input=txt, timeout=1800)
+        m3 = re.search(r'INV states=(\d+) wf_fail=(\d+) dyn_fail=(\d+) first=(.*)', iv)
+        if m3:
+            inv['states'] += int(m3.group(1)); inv['wf_fail'] += int(m3.group(2)); inv['dyn_fail'] += int(m3.group(3))
+            if m3.group(4).strip() and not inv['first']: inv['first'] = m3.group(4).strip()
     for s in seqs:
         for l in s.split('\n'):
             p = l.split()
@@ -190,6 +219,9 @@ def run(ctx):
                        'sequences whose trace contains a valid and an invalid cache entry and a bumped value version' % (len(seqs), ncorpus))
     ctx.extra['distribution'] = {'operations': opsh, 'templates': feats, 'subsystems': nsubh, 'thrown': nthrow, 'sequences': len(seqs)}
     ctx.extra['cfg_of_tree'] = {'fix_auto': cf[0], 'fix_copyver': cf[1]}
+    ctx.extra['invariants_on_reached_states'] = inv
+    if inv['wf_fail'] or inv['dyn_fail']:
+        ctx.broken.append(('invariant:reached-state', 'wf_check/dyn_check (hypotheses of C18_valid_iff_spec_partial) fail on a state reached by the model: ' + inv['first']))
     if dis:
         s, d = dis
         small = shrink(exe, drv, cf, s)
